@@ -17,8 +17,10 @@ RULE = (
     "distinct = distinct (tree, verdicts) digests"
 )
 
-IT_EXTRA = (("chain", ("D0",)), ("chain", ("Eloose",)))
+IT_EXTRA = (("chain", ("D0",)), ("chain", ("Eloose",)), ("chain", ("L",)), ("chain", ("L",), True))
 SQL_EXTRA = (
+    ("chain", ("X",)),
+    ("chain", ("X",), True),
     ("chain", ("D0",)),
     ("chain", ("Eloose",)),
     ("join", ("D0",), None, False),
